@@ -139,6 +139,18 @@ impl Chunk {
         let mut size_buf = [0u8; 4];
         reader.read_exact(&mut size_buf)?;
         let size = u32::from_le_bytes(size_buf);
+
+        // The payload cannot be larger than what is left of the input
+        let pos = reader.stream_position()?;
+        let end = reader.seek(std::io::SeekFrom::End(0))?;
+        reader.seek(std::io::SeekFrom::Start(pos))?;
+        if size as u64 > end.saturating_sub(pos) {
+            return Err(io::Error::new(
+                io::ErrorKind::UnexpectedEof,
+                "chunk size exceeds the remaining input",
+            ));
+        }
+
         let mut data = vec![0u8; size as usize];
         reader.read_exact(&mut data)?;
 
